@@ -302,10 +302,14 @@ impl<'ctx> NaivePriceRepository<'ctx> {
                     continue;
                 }
             }
-            for (j, Entry(source, rates)) in match self.records.get(&prev) {
+            let mut neighbors: Vec<_> = match self.records.get(&prev) {
                 None => continue,
-                Some(x) => x,
-            } {
+                Some(x) => x.iter().collect(),
+            };
+            // HashMap iteration order is not stable, and it decides which of
+            // the equally distant chains wins. Sort by the commodity name.
+            neighbors.sort_unstable_by_key(|(j, _)| j.as_str());
+            for (j, Entry(source, rates)) in neighbors {
                 let bound = rates.partition_point(|(record_date, _)| record_date <= &date);
                 log::debug!(
                     "found next commodity {} with date bound {}",
